@@ -207,7 +207,9 @@ def hist_parse(x0, style):
     x = ":param a: " + _S((x0,))
     y = (":param b: number of things. Defaults to 5", "Args:\n  b: whether to. Defaults to True", "Parameters\n----------\nb : int\n    desc\n",
          "Head.\n\nArgs:\n  b (int): the b\n\n  Usage:\n    f(1)\n\nReturns:\n  int:\n   res\n\nTrailing prose.\n",
-         "Head.\n\nParameters\n----------\nb : int\n    the b\n\nReturns\n-------\nint\n    res\n\nTrailing prose.\n")[style]
+         "Head.\n\nParameters\n----------\nb : int\n    the b\n\nReturns\n-------\nint\n    res\n\nTrailing prose.\n",
+         "\n    Frobnicate the input.\n\n    Args:\n        x (int): the x value\n        y (str): the y value. Defaults to \"a\"\n\n        Usage:\n            call it with care\n\n    Returns:\n        bool: whether it worked\n    ",
+         "\n    Frobnicate.\n\n    Args:\n        x (int): the x value\n\n    Example:\n        >>> f(1)\n\n    Returns:\n        bool: ok\n    ")[style]
 
     def run(s):
         try:
@@ -224,6 +226,6 @@ def hist_parse(x0, style):
     return ""
 
 
-ob("C10", "hist.parse_docstring", {"x0": CP, "style": R(0, 4)}, T=400,
+ob("C10", "hist.parse_docstring", {"x0": CP, "style": R(0, 6)}, T=600,
    funcs=["cdd.shared.docstring_parsers.parse_docstring"],
-   bound="ReST docstring with ANY code point as description, then one of five concrete docstrings (ReST/Google/NumPy; two with a nested Usage block / trailing prose after the sections): result of the second is the same before/after/again")(hist_parse)
+   bound="ReST docstring with ANY code point as description, then one of seven concrete docstrings (ReST/Google/NumPy; two with a nested Usage block / trailing prose after the sections): result of the second is the same before/after/again")(hist_parse)
